@@ -2,7 +2,7 @@
 from obligations import obl
 from harness import o_burn as B
 
-_L = 'EPV.Lemmas.BurnModels'
+_L1, _L2, _L3, _LD = 'EPV.Lemmas.BurnK1', 'EPV.Lemmas.BurnK2', 'EPV.Lemmas.BurnK3', 'EPV.Lemmas.BurnDSD'
 _K1, _K2, _K3, _DS = ('EPV.Props.C13.Kenamond1', 'EPV.Props.C13.Kenamond2', 'EPV.Props.C13.Kenamond3',
                       'EPV.Props.C13.DSDCyl')
 _B, _T = 'EPV.Burn.', 'EPV.C13.'
@@ -14,14 +14,14 @@ def _both(fmt, pre=_T):
 
 _o = [
     # the bridge: traced model = documented formula on EuclideanSpace, acceptance = the constructor's conditions
-    obl('C13.k1.model', _L, _both('k1d%d_leaves', _B) + _both('k1d%d_outcome', _B) + _both('k1d%d_eq_cone', _B),
-        ['K1d2', 'K1d3']),
-    obl('C13.k2.model', _L, _both('k2d%d_leaves', _B) + _both('k2d%d_outcome', _B) + _both('k2d%d_eq_spec', _B),
-        ['K2d2', 'K2d3']),
-    obl('C13.k3.model', _L, _both('k3d%d_leaves', _B) + _both('k3d%d_outcome', _B) + _both('k3d%d_shadow_iff', _B)
-        + _both('k3d%d_eq_spec', _B), ['K3d2', 'K3d3']),
-    obl('C13.dsd.model', _L, [_B + 'dsdcyl_leaves', _B + 'dsdcyl_outcome', _B + 'dsdcyl_accepts', _B + 'dsdcyl_eq_spec',
-                              _B + 'dsdcyl_eq_L8', _B + 'dsdcyl_eq_L9'], ['DSDCyl']),
+    obl('C13.k1.model', _L1, _both('k1d%d_leaves', _B) + _both('k1d%d_outcome', _B) + _both('k1d%d_eq_cone', _B),
+        ['K1d2', 'K1d3'], B.k1),
+    obl('C13.k2.model', _L2, _both('k2d%d_leaves', _B) + _both('k2d%d_outcome', _B) + _both('k2d%d_eq_spec', _B),
+        ['K2d2', 'K2d3'], B.k2),
+    obl('C13.k3.model', _L3, _both('k3d%d_leaves', _B) + _both('k3d%d_outcome', _B) + _both('k3d%d_shadow_iff', _B)
+        + _both('k3d%d_eq_spec', _B), ['K3d2', 'K3d3'], B.k3),
+    obl('C13.dsd.model', _LD, [_B + 'dsdcyl_leaves', _B + 'dsdcyl_outcome', _B + 'dsdcyl_accepts', _B + 'dsdcyl_eq_spec',
+                              _B + 'dsdcyl_eq_L8', _B + 'dsdcyl_eq_L9'], ['DSDCyl'], B.dsd),
     # Kenamond 1
     obl('C13.k1.arrival', _K1, _both('k1d%d_at_detonator') + _both('k1d%d_ge'), ['K1d2', 'K1d3'], B.k1),
     obl('C13.k1.lipschitz', _K1, _both('k1d%d_lipschitz') + _both('k1d%d_continuous'), ['K1d2', 'K1d3'], B.k1),
@@ -37,11 +37,14 @@ _o = [
         + _both('k3d%d_shadow_path_ge_dist'), ['K3d2', 'K3d3'], B.k3),
     obl('C13.k3.shadow_boundary', _K3, _both('k3d%d_boundary_dist') + _both('k3d%d_boundary') + _both('k3d%d_continuousOn'),
         ['K3d2', 'K3d3'], B.k3),
-    obl('C13.k3.line_of_sight', _K3, _both('k3d%d_los') + _both('k3d%d_lipschitz_partial'), ['K3d2', 'K3d3'], B.k3),
+    obl('C13.k3.line_of_sight', _K3, _both('k3d%d_los') + _both('k3d%d_lipschitz_partial') + _both('k3d%d_gradient_los'),
+        ['K3d2', 'K3d3'], B.k3),
+    obl('C13.k3.shadow_gradient', _K3, _both('k3d%d_gradient_shadow'), ['K3d2', 'K3d3'], B.k3),
     # DSD cylinder
     obl('C13.dsd.radial_derivative', _DS, [_T + 'dsdcyl_radial_deriv_inner', _T + 'dsdcyl_radial_deriv_outer',
                                            _T + 'dsdcyl_gradient_inner', _T + 'dsdcyl_gradient_outer'], ['DSDCyl'], B.dsd),
     obl('C13.dsd.arrival', _DS, [_T + 'dsdcyl_ge', _T + 'dsdcyl_at_detonator', _T + 'dsdcyl_strictMono'], ['DSDCyl'], B.dsd),
+    obl('C13.dsd.lipschitz', _DS, [_T + 'dsdcyl_lipschitz_inner', _T + 'dsdcyl_lipschitz_outer'], ['DSDCyl'], B.dsd),
     obl('C13.dsd.continuity', _DS, [_T + 'dsdcyl_continuous', _T + 'dsdcyl_interface'], ['DSDCyl'], B.dsd),
 ]
 
@@ -53,14 +56,14 @@ PROP = dict(
     oracle_budget=0.3,
     scope='Kenamond 1-3 (each traced in 2-D and in 3-D, constructor + _run on one symbolic point) and the DSD cylindrical '
           'expansion.  The traced burn time is proved equal to the documented formula over EuclideanSpace R (Fin n) '
-          '(EPV.Lemmas.BurnModels), acceptance = the constructor\'s ordering conditions.  Proved for all admissible '
+          '(EPV.Lemmas.BurnK1/K2/K3/DSD, one module per solver), acceptance = the constructor\'s ordering conditions.  Proved for all admissible '
           'parameters and all points: K1 t(x_d)=t_d, t>=t_d, |t p - t q| <= dist/D, eikonal equality along rays, gradient '
           'norm 1/D from the generated certificates; K2 t >= min t_di, t(x_di) <= t_di, t(x_d3) = t_d3, global 1/D2 and '
           'inner 1/D1 Lipschitz bounds, ||p|| <= R -> t = t_d3 + ||p||/D1, continuity across the sphere; K3 t >= t_d, '
           't(x_d) = t_d, theta = 0 -> ||p - x_d|| = l_da + l_bp (both leaves agree), continuity on the explosive, shadow '
-          'path >= straight distance; DSD dt/dr = 1/(D_CJ - alpha/r) per material (radial HasDerivAt and gradient norm '
-          'from the log certificates), continuity at r_1 and r_2, t >= t_d, strict monotonicity, under r_1 > alpha_1/D_1, '
-          'r_2 > alpha_2/D_2.  Partial: the gradient norm and the 1/D bound of Kenamond 3 when a point is shadowed (bound '
+          'path >= straight distance, gradient norm 1/D strictly inside the line-of-sight region and strictly inside the shadow region off the ray directly behind the obstacle (generated certificates through arccos/sqrt); DSD dt/dr = 1/(D_CJ - alpha/r) per material (radial HasDerivAt and gradient norm '
+          'from the log certificates), continuity at r_1 and r_2, t >= t_d, strict monotonicity, |t p - t q| <= dist/(D_CJ - alpha/rho) for two points of one material at radii >= rho, under r_1 > alpha_1/D_1, '
+          'r_2 > alpha_2/D_2.  Partial: the 1/D bound of Kenamond 3 when a point is shadowed (bound '
           'proved for line-of-sight pairs only; sampled by the oracle), the pointwise gradient of Kenamond 2; RateStick and '
           'ExplosiveArc (numerical PDE inversion) are not modelled.',
 )
